@@ -262,11 +262,12 @@ pub proof fn lemma_slippage_monotone(m1: Decimal, m2: Decimal, ret: nat, slip: n
 // ---------------------------------------------------------------- deposit slippage tolerance (C13)
 pub uninterp spec fn compute_d_spec(amp: u64, deposits: Seq<Coin>) -> Option<Uint512>;
 pub open spec fn no_zero_reserve(assets: Seq<Coin>) -> bool { forall|i: int| 0 <= i < assets.len() ==> (#[trigger] assets[i]).amount@ != 0 }
-/// constant product: neither deposit ratio, shrunk by the tolerance, exceeds the corresponding pool ratio (18-decimals floors)
+/// constant product: neither deposit ratio, shrunk by the tolerance, exceeds the corresponding pool ratio - compared exactly,
+/// by cross-multiplication: d0/d1 * (1 - tol) <= p0/p1 and d1/d0 * (1 - tol) <= p1/p0 (fix F13; before it both sides were
+/// 18-decimals floors of the ratios, which lose their significant digits when a ratio is tiny in base units)
 pub open spec fn cp_deposit_ok(d0: nat, d1: nat, p0: nat, p1: nat, tol: nat) -> bool {
-    d0 > 0 && d1 > 0 && p0 > 0 && p1 > 0
-    && !((((d0 * DEC) / d1) * ((DEC - tol) as nat)) / DEC > (p0 * DEC) / p1)
-    && !((((d1 * DEC) / d0) * ((DEC - tol) as nat)) / DEC > (p1 * DEC) / p0)
+    !(d0 * ((DEC - tol) as nat) * p1 > p0 * d1 * DEC)
+    && !(d1 * ((DEC - tol) as nat) * p0 > p1 * d0 * DEC)
 }
 /// stableswap, as coded: accepted iff (sqrt(D1)/sqrt(D0))^2 (18-decimals floors) does not exceed the tolerance
 pub open spec fn ss_deposit_ok(d0_sqrt: nat, d1_sqrt: nat, tol: nat) -> bool {
@@ -279,10 +280,9 @@ pub proof fn lemma_cp_exact_proportion(d0: nat, d1: nat, p0: nat, p1: nat, tol: 
     requires d0 > 0, d1 > 0, p0 > 0, p1 > 0, d0 * p1 == d1 * p0, tol <= DEC,
     ensures cp_deposit_ok(d0, d1, p0, p1, tol),
 {
-    lemma_ratio_eq(d0, d1, p0, p1);
-    lemma_ratio_eq(d1, d0, p1, p0);
-    lemma_shrink_le((d0 * DEC) / d1, tol);
-    lemma_shrink_le((d1 * DEC) / d0, tol);
+    let omt = (DEC - tol) as nat;
+    assert(d0 * omt * p1 <= p0 * d1 * DEC) by (nonlinear_arith) requires d0 * p1 == d1 * p0, omt <= DEC;
+    assert(d1 * omt * p0 <= p1 * d0 * DEC) by (nonlinear_arith) requires d0 * p1 == d1 * p0, omt <= DEC;
 }
 proof fn lemma_ratio_eq(a: nat, b: nat, c: nat, d: nat)
     requires b > 0, d > 0, a * d == b * c || a * d == c * b,
@@ -309,12 +309,20 @@ pub proof fn lemma_cp_tolerance_monotone(d0: nat, d1: nat, p0: nat, p1: nat, t1:
     requires t1 <= t2, t2 <= DEC, cp_deposit_ok(d0, d1, p0, p1, t1),
     ensures cp_deposit_ok(d0, d1, p0, p1, t2),
 {
-    let r0 = (d0 * DEC) / d1;
-    let r1 = (d1 * DEC) / d0;
-    assert(r0 * ((DEC - t2) as nat) <= r0 * ((DEC - t1) as nat)) by (nonlinear_arith) requires t1 <= t2, t2 <= DEC;
-    assert(r1 * ((DEC - t2) as nat) <= r1 * ((DEC - t1) as nat)) by (nonlinear_arith) requires t1 <= t2, t2 <= DEC;
-    vstd::arithmetic::div_mod::lemma_div_is_ordered((r0 * ((DEC - t2) as nat)) as int, (r0 * ((DEC - t1) as nat)) as int, DEC as int);
-    vstd::arithmetic::div_mod::lemma_div_is_ordered((r1 * ((DEC - t2) as nat)) as int, (r1 * ((DEC - t1) as nat)) as int, DEC as int);
+    let a1 = (DEC - t1) as nat; let a2 = (DEC - t2) as nat;
+    assert(d0 * a2 * p1 <= d0 * a1 * p1) by (nonlinear_arith) requires a2 <= a1;
+    assert(d1 * a2 * p0 <= d1 * a1 * p0) by (nonlinear_arith) requires a2 <= a1;
+}
+
+// @lemma cp_deposit_ratio_bound_is_the_stated_one [C13]
+/// C13: "a constant-product deposit with a slippage tolerance is accepted only if the deposit ratio is within that tolerance
+/// of the pool ratio": in both directions, deposit ratio * (1 - tol) <= pool ratio, as exact rationals
+pub proof fn lemma_cp_deposit_bound(d0: nat, d1: nat, p0: nat, p1: nat, tol: nat)
+    requires tol <= DEC, d1 > 0, d0 > 0, p0 > 0, p1 > 0, cp_deposit_ok(d0, d1, p0, p1, tol),
+    ensures
+        d0 * ((DEC - tol) as nat) * p1 <= p0 * d1 * DEC,
+        d1 * ((DEC - tol) as nat) * p0 <= p1 * d0 * DEC,
+{
 }
 
 // @lemma ss_deposit_tolerance_usable [C13]
